@@ -979,8 +979,66 @@ fn add_field<F: FftField + PrimeField>(v: &mut Vec<(u64, Item)>, fname: &'static
     add_kind::<F, GeneralEvaluationDomain<F>>(v, fname, max_n, full_cap, api_cap);
 }
 
+// ---- domains over an extension field ------------------------------------------------------------
+// `QuadExtField` implements `FftField` by embedding the base field's roots of unity, so every evaluation domain of
+// the base field is also one over Fp2 (a user can ask for it: `GeneralEvaluationDomain::<Fq2>::new(n)`).
+
+pub struct Bn384Fq2Config;
+impl ark_ff::Fp2Config for Bn384Fq2Config {
+    type Fp = Bn384Fq;
+    const NONRESIDUE: Bn384Fq = <Bn384Fq as FftField>::GENERATOR;
+    const FROBENIUS_COEFF_FP2_C1: &'static [Bn384Fq] = &[<Bn384Fq as Field>::ONE, ark_ff::MontFp!("-1")];
+}
+pub type Bn384Fq2 = ark_ff::Fp2<Bn384Fq2Config>;
+
+fn ext_domains<F: FftField, D: EvaluationDomain<F>>(rep: &mut Report, rng: &mut Rng, fname: &'static str, kind: &'static str) {
+    rep.config(&format!("{fname}/{kind}"));
+    for n in [1usize, 2, 3, 4, 6, 8, 9, 12, 18, 24, 36, 72, 5, 7, 10, 100] {
+        let det = || json!({"field": fname, "domain_kind": kind, "requested": n});
+        let Some(Some(d)) = rep.total(&format!("domain/{kind}/new"), det, || D::new(n)) else { continue };
+        let s = d.size();
+        rep.eval(digest(&("ext-domain", fname, kind, n)), true);
+        rep.class("domain over an extension field");
+        rep.class_if(s % 3 == 0, "domain over an extension field: size with a factor 3");
+        let g = d.group_gen();
+        let mut primes = vec![];
+        let mut t = s;
+        for q in [2usize, 3, 5, 7] {
+            if t % q == 0 {
+                primes.push(q);
+                while t % q == 0 {
+                    t /= q;
+                }
+            }
+        }
+        let exact = g.pow([s as u64]).is_one() && primes.iter().all(|q| !g.pow([(s / q) as u64]).is_one()) && t == 1;
+        rep.check(s >= n && (exact || s == 1), || format!("domain/{kind}/group_gen/order-over-extension-field"), det);
+        let es: Vec<F> = d.elements().collect();
+        let distinct = (0..es.len()).all(|i| (0..i).all(|j| es[i] != es[j]));
+        rep.check(es.len() == s && distinct && (0..s).all(|i| d.element(i) == es[i]), || format!("domain/{kind}/elements/over-extension-field"), det);
+        for len in [s, s / 2 + 1, 1] {
+            let coeffs: Vec<F> = (0..len.min(s)).map(|_| F::rand(rng)).collect();
+            let naive: Vec<F> = es.iter().map(|x| coeffs.iter().rev().fold(F::zero(), |acc, c| acc * *x + *c)).collect();
+            if let Some(got) = rep.total(&format!("domain/{kind}/fft"), det, || d.fft(&coeffs)) {
+                rep.check(got == naive, || format!("domain/{kind}/fft/value-over-extension-field"), det);
+                if let Some(back) = rep.total(&format!("domain/{kind}/ifft"), det, || d.ifft(&got)) {
+                    let mut want = coeffs.clone();
+                    want.resize(s, F::zero());
+                    rep.check(back == want, || format!("domain/{kind}/ifft/value-over-extension-field"), det);
+                }
+            }
+        }
+    }
+}
+
 pub fn items(args: &Args) -> Vec<Item> {
     let mut v: Vec<(u64, Item)> = vec![];
+    v.push((10, Item::new("ext-field/bn384_small_two_adicity::Fq2", |rep, rng, _| {
+        rep.require("domain over an extension field: size with a factor 3");
+        ext_domains::<Bn384Fq2, GeneralEvaluationDomain<Bn384Fq2>>(rep, rng, "Fp2 over bn384_small_two_adicity::Fq", "general");
+        ext_domains::<Bn384Fq2, MixedRadixEvaluationDomain<Bn384Fq2>>(rep, rng, "Fp2 over bn384_small_two_adicity::Fq", "mixed");
+        ext_domains::<Bn384Fq2, Radix2EvaluationDomain<Bn384Fq2>>(rep, rng, "Fp2 over bn384_small_two_adicity::Fq", "radix2");
+    })));
     // (max transform size, full-comparison bound, API bound)
     let big = args.pick(1u64 << 11, 1 << 14);
     let full = args.pick(1usize << 11, 1 << 12);
